@@ -55,7 +55,7 @@ func c15Gate(e *Env, s *Sched) {
 		r.Unknown("loop: reaching condition of the launch", e.InstrPos(s.Launch), "reaching condition could not be computed (too many disjuncts or unreachable)")
 		return
 	}
-	isMax := func(v ssa.Value) bool { return e.IsFieldRead(v, nil, "maxActiveRuns") }
+	isMax := func(v ssa.Value) bool { return e.IsFieldRead(v, nil, e.schedFields().MaxActive) }
 	// the counter, by role: the int-valued repository function whose result the limit is compared with
 	isCount := func(v ssa.Value) bool {
 		c, ok := ir.Resolve(v).(*ssa.Call)
@@ -158,7 +158,7 @@ func c15CountTable(e *Env, s *Sched) {
 	var visit func(v ssa.Value, blk *ssa.BasicBlock, k int, d int)
 	visit = func(v ssa.Value, blk *ssa.BasicBlock, k int, d int) {
 		lits := e.DCSPhiEdge(blk, k)
-		set := ir.Restrict(lits, isElemStatus, s.NS)
+		set := e.restrictWays(lits, isElemStatus, s.NS)
 		pos := e.InstrPos(blk.Preds[k].Instrs[len(blk.Preds[k].Instrs)-1])
 		switch x := v.(type) {
 		case *ssa.Phi:
@@ -178,7 +178,7 @@ func c15CountTable(e *Env, s *Sched) {
 				if c, ok := ir.ConstInt(x.Y); ok && c == 1 {
 					// the increment's own block conditions
 					ls := e.DCSBlock(x.Block())
-					st := ir.Restrict(ls, isElemStatus, s.NS)
+					st := e.restrictWays(ls, isElemStatus, s.NS)
 					r.Check(len(st) == 1 && st[running], "runningCount: count++ exactly under status == Running", e.InstrPos(x),
 						"the counter is incremented for nodes in state {"+strings.Join(st.Names(s.NS), ",")+"}", e.FactsStr("conditions: ", ls))
 					return
